@@ -12,12 +12,12 @@ open IsoVerif.Gen IsoVerif.Model IsoVerif.Model.C11 IsoVerif.Model.C13
 /-! ## association lists under an injective key map -/
 
 theorem fc_shiftKey_inj (k : Int) (a b : CoordKey) : shiftKey k a = shiftKey k b ↔ a = b := by
-  obtain ⟨a1, a2, a3, a4⟩ := a
-  obtain ⟨b1, b2, b3, b4⟩ := b
+  obtain ⟨a1, a2, a3⟩ := a
+  obtain ⟨b1, b2, b3⟩ := b
   simp only [shiftKey, Prod.mk.injEq]
   constructor
-  · rintro ⟨h1, h2, h3, h4⟩; exact ⟨h1, by omega, by omega, h4⟩
-  · rintro ⟨h1, h2, h3, h4⟩; exact ⟨h1, by omega, by omega, h4⟩
+  · rintro ⟨h1, h2, h3⟩; exact ⟨h1, by omega, by omega⟩
+  · rintro ⟨h1, h2, h3⟩; exact ⟨h1, by omega, by omega⟩
 
 theorem fc_shiftKey_beq (k : Int) (a b : CoordKey) : (shiftKey k a == shiftKey k b) = (a == b) := by
   rw [Bool.eq_iff_iff]; simp only [beq_iff_eq]; exact fc_shiftKey_inj k a b
@@ -51,17 +51,29 @@ theorem fc_lookup_shift {β γ} (k : Int) (f : β → γ) (m : List (CoordKey ×
     simp only [List.map_cons, List.lookup_cons, fc_shiftKey_beq]
     cases a == pk <;> simp [ih]
 
+theorem fc_merge_shift (k : Int) (a b : FeatureInfo) : (shiftFI k a).merge (shiftFI k b) = shiftFI k (a.merge b) := by
+  unfold FeatureInfo.merge
+  have hl : ∀ f : FeatureInfo, (shiftFI k f).label = f.label := fun _ => rfl
+  rw [hl a, hl b]
+  split <;> rfl
+
 theorem fc_addName_shift (k : Int) (names : List (CoordKey × FeatureInfo)) (c : CoordKey) (fi : FeatureInfo) :
-    addName (names.map (fun p => (shiftKey k p.1, shiftFI k p.2))) (shiftKey k c) (shiftFI k fi) =
-      (addName names c fi).map (fun p => (shiftKey k p.1, shiftFI k p.2)) := by
-  simp only [addName, fc_lookup_shift]
-  cases names.lookup c <;> simp
+    addName FeatureInfo.merge (names.map (fun p => (shiftKey k p.1, shiftFI k p.2))) (shiftKey k c) (shiftFI k fi) =
+      (addName FeatureInfo.merge names c fi).map (fun p => (shiftKey k p.1, shiftFI k p.2)) := by
+  induction names with
+  | nil => rfl
+  | cons p ps ih =>
+    obtain ⟨pk, pv⟩ := p
+    simp only [List.map_cons, addName, fc_shiftKey_beq]
+    split
+    · simp only [List.map_cons, fc_merge_shift]
+    · simp only [List.map_cons, ih]
 
 theorem fc_coordKey_shift (k : Int) (f : FeatureInfo) : coordKey (shiftFI k f) = shiftKey k (coordKey f) := rfl
 
 theorem fc_addLoop_shift (k : Int) (gid : Nat) : ∀ (prof : List Int) (pm : List FeatureInfo) (st : PCounter CoordKey),
-    addLoop coordKey gid prof (pm.map (shiftFI k)) (shiftCounter k st) =
-      (addLoop coordKey gid prof pm st).map (shiftCounter k) := by
+    addLoop coordKey FeatureInfo.merge gid prof (pm.map (shiftFI k)) (shiftCounter k st) =
+      (addLoop coordKey FeatureInfo.merge gid prof pm st).map (shiftCounter k) := by
   intro prof
   induction prof with
   | nil => intro pm st; rfl
@@ -101,8 +113,8 @@ theorem fc_ensureGroup_shift (k : Int) (st : PCounter CoordKey) (g : String) :
 
 theorem fc_addReadInfoFromProfile_shift (k : Int) (st : PCounter CoordKey) (prof : List Int) (pm : List FeatureInfo)
     (g : String) :
-    addReadInfoFromProfile coordKey (shiftCounter k st) prof (pm.map (shiftFI k)) g =
-      (addReadInfoFromProfile coordKey st prof pm g).map (shiftCounter k) := by
+    addReadInfoFromProfile coordKey FeatureInfo.merge (shiftCounter k st) prof (pm.map (shiftFI k)) g =
+      (addReadInfoFromProfile coordKey FeatureInfo.merge st prof pm g).map (shiftCounter k) := by
   simp only [addReadInfoFromProfile, fc_ensureGroup_shift]
   have : (shiftCounter k (ensureGroup st g)).groupIds = (ensureGroup st g).groupIds := rfl
   rw [this]
@@ -111,8 +123,8 @@ theorem fc_addReadInfoFromProfile_shift (k : Int) (st : PCounter CoordKey) (prof
   | some gid => exact fc_addLoop_shift k gid prof pm _
 
 theorem fc_runCounter_shift (k : Int) (ig : Bool) (dg : String) : ∀ (evs : List ReadEv) (st : PCounter CoordKey),
-    runCounter coordKey ig dg (shiftCounter k st) (evs.map (shiftReadEv k)) =
-      (runCounter coordKey ig dg st evs).map (shiftCounter k) := by
+    runCounter coordKey FeatureInfo.merge ig dg (shiftCounter k st) (evs.map (shiftReadEv k)) =
+      (runCounter coordKey FeatureInfo.merge ig dg st evs).map (shiftCounter k) := by
   intro evs
   induction evs with
   | nil => intro st; rfl
@@ -120,7 +132,7 @@ theorem fc_runCounter_shift (k : Int) (ig : Bool) (dg : String) : ∀ (evs : Lis
     intro st
     simp only [List.map_cons, runCounter, addReadInfo, shiftReadEv]
     rw [fc_addReadInfoFromProfile_shift]
-    cases addReadInfoFromProfile coordKey st ev.profile ev.pmap (if ig = true then dg else ev.group) with
+    cases addReadInfoFromProfile coordKey FeatureInfo.merge st ev.profile ev.pmap (if ig = true then dg else ev.group) with
     | none => rfl
     | some st' => simp only [Option.map_some]; exact ih st'
 
